@@ -160,7 +160,7 @@ Fixpoint eval (f:nat) (s:sstate) (e:expr) {struct f} : outcome * sstate :=
           | (ONormal vb, s2) =>
               match va, vb with
               | _, RNone => (OError, s2)
-              | RNil, RNil => (ONormal RNone, s2)
+              | RNil, RNil => (ONormal RNil, s2)       (* the call is skipped: the right nil is consumed, the left one stays as the value *)
               | _, RNil => (OUnsupported "nil right operand (the implementation then leaves the left operand behind)", s2)
               | RNone, _ => (OError, s2)
               | RNil, _ => (ONormal RNone, s2)
@@ -437,14 +437,23 @@ with eval_block (f:nat) (s:sstate) (b:list stmt) (region:rvalue) {struct f} : ou
           | other => other end
       | SAssign n e =>
           match eval f s e with
-          | (ONormal RNone, s1) => (OError, s1)
+          | (ONormal RNone, s1) =>
+              (* the expression produced nothing: the assignment takes what the region holds (the nil a scope starts
+                 with), or fails when the region is empty *)
+              match region with
+              | RNone => (OError, s1)
+              | w => let s2 := if is_local n then assign_local s1 n w else rns_set s1 (cur_ns_of s1) n w in
+                     continue s2 RNone end
           | (ONormal v, s1) =>
               let s2 := if is_local n then assign_local s1 n v else rns_set s1 (cur_ns_of s1) n v in
               continue s2 region
           | other => other end
       | SLocal n e =>
           match eval f s e with
-          | (ONormal RNone, s1) => (OError, s1)
+          | (ONormal RNone, s1) =>
+              match region with
+              | RNone => (OError, s1)
+              | w => continue (bind_here s1 n w) RNone end
           | (ONormal v, s1) => continue (bind_here s1 n v) region
           | other => other end
       end
